@@ -1,78 +1,420 @@
 /-
   C17 — a failed or refused export leaves no trace.  Property theorems only.
+
   `d` is the result of the content producer (`dump(validate=…)`), universally quantified: the
   statements hold for every metainfo, every validation rule and both values of `validate`.
+  The target (`Target`: what is at the path + the operating system's answers; `Stream`: content,
+  position, mode flags, fault plan) is universally quantified as well: every way the target can
+  be unwritable, target absent / present, overwrite on / off, every stream kind.
+
+  Layout: (1) the code-shaped model meets the executable specification `fileSpec`/`streamSpec`
+  for every input; (2) what an outcome accepted by the specification satisfies, clause by clause
+  of the property text (these hold for the model by (1) and for every implementation outcome the
+  harness has judged with the same predicate); (3) statements about the model that are stronger
+  or more precise than the property text (order of effects, exact shape after a failure).
 -/
-import Torf.Model.Write
+import Torf.Lemmas.Write
 namespace Torf.C17
 open Torf Torf.Export Torf.Write
 
-/-- A failed `write` (any cause up to and including `open`: refused overwrite, invalid or
-    unconvertible metainfo, unopenable target) leaves the target exactly as it was. -/
-theorem C17_file_atomic (d : Except ErrKind Bytes) (ov : Bool) (t t' : Target) (e : ErrKind) (log : List Eff)
-    (h : write d ov none t = (.error e, t', log)) : t' = t := by
-  unfold write at h
+/-! ### (1) model ⊨ specification -/
+
+/-- the in-memory buffer `write` dumps into: a fresh `BytesIO` never fails -/
+theorem C17_buffer (c : Bytes) :
+    writeStream (.ok c) { content := [], pos := 0 } =
+      (.ok (), { content := c, pos := c.length, calls := 4 }) :=
+  writeStream_fresh c
+
+/-- The full statement: `write_stream` meets the specification for every producer result and
+    *every* stream.  The code as it is falsifies it for raw streams (finding D17a):
+    `C17_stream_meets_spec_counterexample`. -/
+def C17_stream_meets_spec_full : Prop :=
+  ∀ (d : Except ErrKind Bytes) (s : Stream), streamSpec d s (writeStream d s).1 (writeStream d s).2 = true
+
+/-- `write_stream` meets the specification for every producer result and every stream — every
+    mode (seekable or not, append, read-only, text), every position, prior content of any
+    length, a fault at any method call, any write quota — except a raw stream whose `write`
+    takes only part of the content and says so in its return value instead of raising. -/
+theorem C17_stream_meets_spec_partial (d : Except ErrKind Bytes) (s : Stream)
+    (hraw : s.short = false ∨ ∀ c, d = .ok c → c.length ≤ s.accepts c.length) :
+    streamSpec d s (writeStream d s).1 (writeStream d s).2 = true := by
+  cases d with
+  | error e => simp [writeStream, streamSpec, resEq]
+  | ok c =>
+    have hle := accepts_le s c.length
+    have hraw' : s.short = false ∨ c.length ≤ s.accepts c.length := hraw.imp id (fun h => h c rfl)
+    rw [writeStream_ok_eq]
+    simp only []
+    repeat' split
+    all_goals simp_all [streamSpec, Stream.mayFail]
+    all_goals first
+      | omega
+      | (apply List.take_of_length_le
+         rcases hraw' with hr | hr
+         · rename_i hk; by_cases hlt : s.accepts c.length < c.length
+           · simp [hk hlt] at hr
+           · omega
+         · exact hr)
+      | skip
+
+/-- D17a: a raw (unbuffered) stream whose `write` takes 1 of 2 bytes and returns 1: `write_stream`
+    ignores the count and returns normally, the stream holds a truncated torrent. -/
+theorem C17_stream_meets_spec_counterexample : ¬ C17_stream_meets_spec_full := by
+  intro h
+  have := h (.ok [100, 101]) { content := [], pos := 0, quota := some 1, short := true }
+  revert this
+  decide
+
+/-- …exactly: with no other fault, a raw seekable stream that takes `q` bytes ends up holding the
+    first `q` bytes of the new content and `write_stream` reports success. -/
+theorem C17_stream_short_write (c old : Bytes) (p q : Nat) (hq : q < c.length) :
+    writeStream (.ok c) { content := old, pos := p, quota := some q, short := true } =
+      (.ok (), { content := c.take q, pos := q, quota := some 0, short := true, calls := 4 }) := by
+  simp [writeStream_ok_eq, Stream.accepts, Nat.min_eq_left (Nat.le_of_lt hq)]
+
+/-- `write` meets the specification for every producer result, both values of the overwrite
+    flag and every world: whatever is at the path and whichever of `exists`/`open`/`write`/`close`
+    the operating system fails. -/
+theorem C17_write_meets_spec (d : Except ErrKind Bytes) (ov : Bool) (t : Target) :
+    fileSpec d ov t (write d ov t).1 (write d ov t).2.1 = true := by
+  rw [write_eq]
+  unfold fileSpec
+  cases d with
+  | error e => cases ov <;> cases t.env.existsAns <;> simp [resEq]
+  | ok c =>
+    have hle := env_accepts_le t.env c.length
+    have hpre : (c.take (t.env.accepts c.length)).isPrefixOf c = true := by
+      simp [List.take_prefix]
+    by_cases hk : t.env.accepts c.length < c.length <;>
+    cases ov <;> cases hex : t.env.existsAns <;> cases hop : t.openFails <;> cases hcl : t.env.closeErr <;>
+      simp [resEq, Env.failsAfterOpen, hex, hop, hcl, hk] <;>
+      cases hn : t.node <;> simp_all [Node.store, Node.regular, Target.openFails]
+    all_goals exact List.take_of_length_le hk
+
+/-! ### (2) what an outcome accepted by the specification satisfies
+
+  `r`, `t'` (`s'`) are arbitrary: these are statements about the specification, i.e. about every
+  implementation outcome the harness judges with `fileSpec`/`streamSpec`, and about the model. -/
+
+/-- "writing without the overwrite flag never modifies an existing file and raises the write
+    error" — whatever the metainfo and whatever else is wrong with the target. -/
+theorem C17_spec_refused (d : Except ErrKind Bytes) (t t' : Target) (r : Except ErrKind Unit)
+    (h : fileSpec d false t r t' = true) (hex : t.env.existsAns = true) :
+    r = .error .write ∧ t' = t := by
+  simp [fileSpec, hex] at h
+  exact ⟨resEq_error h.2.1, target_ext h.2.2 h.1⟩
+
+/-- "writing a torrent file that fails validation or conversion creates no file and leaves an
+    existing file byte for byte unchanged": the world afterwards is the world before, and the
+    error is the producer's (or the refusal). -/
+theorem C17_spec_dump_failed (e : ErrKind) (ov : Bool) (t t' : Target) (r : Except ErrKind Unit)
+    (h : fileSpec (.error e) ov t r t' = true) :
+    t' = t ∧ (r = .error e ∨ (r = .error .write ∧ ov = false ∧ t.env.existsAns = true)) := by
+  unfold fileSpec at h
   split at h
-  · simp_all
-  · cases d with
-    | error e' => simp [writeStream] at h; exact h.2.1.symm
+  · rename_i href
+    simp at h href
+    exact ⟨target_ext h.2.2 h.1, .inr ⟨resEq_error h.2.1, href⟩⟩
+  · simp at h
+    exact ⟨target_ext h.2.2 h.1, .inl (resEq_error h.2.1)⟩
+
+/-- unwritable target, `open` fails (EACCES, EISDIR, ENOENT, ENOTDIR, ETXTBSY, ELOOP, …): a failed
+    export changes nothing — an existing file is neither removed nor truncated, nothing is
+    created. -/
+theorem C17_spec_unopenable (d : Except ErrKind Bytes) (ov : Bool) (t t' : Target) (e : ErrKind)
+    (h : fileSpec d ov t (.error e) t' = true) (hop : t.openFails = true) : t' = t := by
+  unfold fileSpec at h
+  split at h
+  · simp at h; exact target_ext h.2.2 h.1
+  · cases d <;> simp [hop] at h
+    · exact target_ext h.2.2 h.1
+    · exact target_ext h.2.2 h.1
+
+/-- every failed export: the world is unchanged, or — only if the complete content was produced,
+    overwriting was not refused, `open` succeeded and the operating system then failed the write
+    or the close — the path holds an initial segment of the new content. -/
+theorem C17_spec_failure (d : Except ErrKind Bytes) (ov : Bool) (t t' : Target) (e : ErrKind)
+    (h : fileSpec d ov t (.error e) t' = true) :
+    t' = t ∨ ∃ c b, d = .ok c ∧ b <+: c ∧ t'.node = .file b ∧ t.node.regular = true ∧
+      (ov = true ∨ t.env.existsAns = false) ∧ t.openFails = false ∧ t.env.failsAfterOpen c.length = true := by
+  unfold fileSpec at h
+  split at h
+  · simp at h; exact .inl (target_ext h.2.2 h.1)
+  · rename_i href
+    cases d with
+    | error e' => simp at h; exact .inl (target_ext h.2.2 h.1)
     | ok c =>
-      simp only [writeStream] at h
-      split at h
-      · simp_all
-      · split at h <;> simp_all
+      simp only [Bool.and_eq_true, Bool.or_eq_true, beq_iff_eq] at h
+      obtain ⟨henv, ⟨-, -⟩, h3⟩ := h
+      rcases h3 with h3 | ⟨⟨hop, hf⟩, h3⟩
+      · exact .inl (target_ext h3 henv)
+      · right
+        cases hn : t'.node <;> simp [hn] at h3
+        rename_i b
+        refine ⟨c, b, rfl, h3.2, rfl, h3.1, ?_, by simpa using hop, hf⟩
+        cases ov <;> cases hex : t.env.existsAns <;> simp_all
 
-/-- Without the overwrite flag an existing path is never modified and the write error is raised,
-    whatever the metainfo and even if writing would fail later (`writeFault`). -/
-theorem C17_no_overwrite (d : Except ErrKind Bytes) (wf : Option Nat) (t : Target) (h : t.exists_ = true) :
-    ∃ log, write d false wf t = (.error .write, t, log) := by
-  unfold write
-  simp [h]
+/-- no failure before the bytes are handed to the opened file leaves a trace (the statement of
+    round 1, now for every world): if the operating system accepts the bytes and the close, a
+    failed export — refused, invalid, unconvertible, unopenable — changed nothing. -/
+theorem C17_spec_no_trace (d : Except ErrKind Bytes) (ov : Bool) (t t' : Target) (e : ErrKind)
+    (h : fileSpec d ov t (.error e) t' = true) (hq : t.env.quota = none) (hc : t.env.closeErr = false) :
+    t' = t := by
+  rcases C17_spec_failure d ov t t' e h with h | ⟨c, b, _, _, _, _, _, _, hf⟩
+  · exact h
+  · simp [Env.failsAfterOpen, Env.accepts, hq, hc] at hf
 
-/-- A successful `write` leaves exactly the dumped bytes in the file (and `dump` succeeded, and
-    the path did not exist unless overwriting was allowed). -/
+/-- the minimum for an unwritable target: whatever happens, something that was at the path is
+    never removed; and when the export fails a regular file stays a regular file, a directory a
+    directory, anything else what it was. -/
+theorem C17_spec_never_removed (d : Except ErrKind Bytes) (ov : Bool) (t t' : Target) (r : Except ErrKind Unit)
+    (h : fileSpec d ov t r t' = true) :
+    (t.node ≠ .absent → t'.node ≠ .absent) ∧
+    ((∃ e, r = .error e) → (t.node = .dir → t'.node = .dir) ∧ (t.node = .other → t'.node = .other) ∧
+      (∀ b, t.node = .file b → ∃ b', t'.node = .file b')) := by
+  cases r with
+  | error e =>
+    rcases C17_spec_failure d ov t t' e h with h | ⟨c, b, _, _, hn, hreg, _⟩
+    · subst h; exact ⟨id, fun _ => ⟨id, id, fun b hb => ⟨b, hb⟩⟩⟩
+    · cases hn' : t.node <;> simp_all [Node.regular]
+  | ok u =>
+    unfold fileSpec at h
+    split at h
+    · simp [resEq] at h
+    · cases d with
+      | error e => simp [resEq] at h
+      | ok c =>
+        simp at h
+        refine ⟨?_, by simp⟩
+        rcases h.2 with h2 | h2 <;> simp [h2]
+
+/-- "a successful write leaves exactly the dumped bytes": the producer succeeded, an existing
+    path was not overwritten without the flag, and the path now holds a regular file with exactly
+    the dumped bytes — unless what was there is neither file nor directory and still is (a device
+    that swallowed the bytes). -/
+theorem C17_spec_success (d : Except ErrKind Bytes) (ov : Bool) (t t' : Target) (u : Unit)
+    (h : fileSpec d ov t (.ok u) t' = true) :
+    ∃ c, d = .ok c ∧ (t'.node = .file c ∨ (t.node = .other ∧ t'.node = .other)) ∧
+      (ov = false → t.env.existsAns = false) := by
+  unfold fileSpec at h
+  split at h
+  · simp [resEq] at h
+  · rename_i href
+    cases d with
+    | error e => simp [resEq] at h
+    | ok c =>
+      simp at h
+      refine ⟨c, rfl, h.2, ?_⟩
+      intro hov; simpa [hov] using href
+
+/-- an export does not fail without a cause: valid content, overwriting not refused and an
+    operating system that fails none of `open`/`write`/`close` ⇒ success. -/
+theorem C17_spec_no_spurious_failure (c : Bytes) (ov : Bool) (t t' : Target) (r : Except ErrKind Unit)
+    (h : fileSpec (.ok c) ov t r t' = true) (hov : ov = true ∨ t.env.existsAns = false)
+    (hop : t.openFails = false) (hf : t.env.failsAfterOpen c.length = false) : ∃ u, r = .ok u := by
+  cases r with
+  | ok u => exact ⟨u, rfl⟩
+  | error e =>
+    exfalso
+    unfold fileSpec at h
+    split at h
+    · rename_i href; rcases hov with hov | hov <;> simp [hov] at href
+    · simp [hop, hf] at h
+
+/-- stream, nothing produced: the producer's error is raised and the stream object is untouched
+    — content, position, and not a single method of it was called. -/
+theorem C17_stream_spec_untouched (e : ErrKind) (s s' : Stream) (r : Except ErrKind Unit)
+    (h : streamSpec (.error e) s r s' = true) :
+    r = .error e ∧ s'.content = s.content ∧ s'.pos = s.pos ∧ s'.calls = s.calls := by
+  simp [streamSpec] at h
+  exact ⟨resEq_error h.1.1.1, h.1.1.2, h.1.2, h.2⟩
+
+/-- stream, success: the producer succeeded and a seekable stream holds exactly the dumped bytes
+    (whatever it held before, wherever its position was, append mode or not); a non-seekable one
+    its old content followed by them. -/
+theorem C17_stream_spec_success (d : Except ErrKind Bytes) (s s' : Stream) (u : Unit)
+    (h : streamSpec d s (.ok u) s' = true) :
+    ∃ c, d = .ok c ∧ (s.seekable = true → s'.content = c) ∧ (s.seekable = false → s'.content = s.content ++ c) := by
+  cases d with
+  | error e => simp [streamSpec, resEq] at h
+  | ok c =>
+    refine ⟨c, rfl, ?_, ?_⟩ <;> intro hs <;> simpa [streamSpec, hs] using h
+
+/-- stream: no failure without a cause. -/
+theorem C17_stream_spec_no_spurious_failure (c : Bytes) (s s' : Stream) (r : Except ErrKind Unit)
+    (h : streamSpec (.ok c) s r s' = true) (hf : s.mayFail c.length = false) : ∃ u, r = .ok u := by
+  cases r with
+  | ok u => exact ⟨u, rfl⟩
+  | error e => simp [streamSpec, hf] at h
+
+/-! ### (3) the model, more precisely than the property text -/
+
+/-- A failed `write` — refused overwrite, invalid or unconvertible metainfo, unopenable target —
+    leaves the world exactly as it was, whenever the operating system accepts the bytes and the
+    close (round-1 statement; `C17_write_fault` says what happens otherwise). -/
+theorem C17_file_atomic (d : Except ErrKind Bytes) (ov : Bool) (t t' : Target) (e : ErrKind) (log : List Eff)
+    (hq : t.env.quota = none) (hc : t.env.closeErr = false)
+    (h : write d ov t = (.error e, t', log)) : t' = t := by
+  have := C17_write_meets_spec d ov t
+  rw [h] at this
+  exact C17_spec_no_trace d ov t t' e this hq hc
+
+/-- The same from the effect log: as long as no byte was handed to the opened file, nothing
+    changed — in every world, including those where a later write would have failed. -/
+theorem C17_file_atomic_log (d : Except ErrKind Bytes) (ov : Bool) (t t' : Target) (r : Except ErrKind Unit)
+    (log : List Eff) (h : write d ov t = (r, t', log)) (hlog : Eff.writeFile ∉ log) : t' = t := by
+  rw [write_eq] at h
+  cases ov <;> cases hex : t.env.existsAns <;> cases hop : t.openFails <;> cases d <;>
+    simp [hex, hop] at h <;> try (obtain ⟨_, rfl, _⟩ := h; rfl)
+  all_goals (split at h <;> try split at h) <;> simp at h <;> obtain ⟨_, _, rfl⟩ := h <;> simp at hlog
+
+/-- Without the overwrite flag a path that `os.path.exists` reports is never modified and the
+    write error is raised, whatever the metainfo and whatever else would fail later. -/
+theorem C17_no_overwrite (d : Except ErrKind Bytes) (t : Target) (h : t.env.existsAns = true) :
+    write d false t = (.error .write, t, [.existsCheck]) := by
+  simp [write, h]
+
+/-- …and an existing file whose existence cannot be seen (`exists` answers False because the
+    directory may not be searched) is not modified either, provided the same denial makes `open`
+    fail: "never modifies an existing file" does not depend on the existence check. -/
+theorem C17_no_overwrite_hidden (d : Except ErrKind Bytes) (t : Target)
+    (hden : t.env.existsAns = false → t.openFails = true) :
+    ∃ e log, write d false t = (.error e, t, log) := by
+  rw [write_eq]
+  cases hex : t.env.existsAns
+  · cases d <;> simp [hden hex]
+  · simp
+
+/-- A successful `write` leaves exactly the dumped bytes in the file (and `dump` succeeded, the
+    path was not reported to exist unless overwriting was allowed, and no OS call failed). -/
 theorem C17_success (d : Except ErrKind Bytes) (ov : Bool) (t t' : Target) (log : List Eff)
-    (h : write d ov none t = (.ok (), t', log)) :
-    ∃ c, d = .ok c ∧ t'.node = .file c ∧ (ov = false → t.exists_ = false) := by
-  cases ov <;> cases hex : t.exists_ <;> cases hop : t.openable <;> cases d <;>
-    simp [write, writeStream, writeAt, hex, hop] at h ⊢ <;>
-    (obtain ⟨rfl, _⟩ := h; rfl)
+    (hreg : t.node.regular = true) (h : write d ov t = (.ok (), t', log)) :
+    ∃ c, d = .ok c ∧ t'.node = .file c ∧ (ov = false → t.env.existsAns = false) ∧
+      t.openFails = false ∧ t.env.failsAfterOpen c.length = false := by
+  have hs := C17_write_meets_spec d ov t
+  rw [h] at hs
+  obtain ⟨c, rfl, hn, hov⟩ := C17_spec_success d ov t t' () hs
+  refine ⟨c, rfl, ?_, hov, ?_⟩
+  · rcases hn with hn | ⟨hn, _⟩
+    · exact hn
+    · simp [hn, Node.regular] at hreg
+  rw [write_eq] at h
+  cases ov <;> cases hex : t.env.existsAns <;> cases hop : t.openFails <;> simp [hex, hop] at h <;>
+    (split at h <;> try split at h) <;> simp_all [Env.failsAfterOpen]
 
 /-- The content is produced before the target is opened, on every path through `write`:
     if the log contains `open` then `dump` succeeded and was logged before it. -/
-theorem C17_dump_before_open (d : Except ErrKind Bytes) (ov : Bool) (wf : Option Nat) (t t' : Target)
-    (r : Except ErrKind Unit) (log : List Eff) (h : write d ov wf t = (r, t', log)) (hopen : Eff.open_ ∈ log) :
+theorem C17_dump_before_open (d : Except ErrKind Bytes) (ov : Bool) (t t' : Target)
+    (r : Except ErrKind Unit) (log : List Eff) (h : write d ov t = (r, t', log)) (hopen : Eff.open_ ∈ log) :
     (∃ c, d = .ok c) ∧ Eff.dump ∈ log.takeWhile (fun e => e != Eff.open_) := by
-  cases ov <;> cases hex : t.exists_ <;> cases hop : t.openable <;> cases d <;> cases wf <;>
-    simp [write, writeStream, hex, hop] at h <;>
-    (obtain ⟨_, _, rfl⟩ := h) <;> simp_all <;> decide
+  rw [write_eq] at h
+  cases ov <;> cases hex : t.env.existsAns <;> cases hop : t.openFails <;> cases d <;>
+    simp [hex, hop] at h <;> try (obtain ⟨_, _, rfl⟩ := h; simp_all <;> decide)
+  all_goals (split at h <;> try split at h) <;> simp at h <;> obtain ⟨_, _, rfl⟩ := h <;> simp <;> decide
 
-/-- `write_stream`: nothing is touched unless `dump` succeeded (the stream is returned as it was
-    and the error is `dump`'s); on success a seekable stream holds exactly the dumped bytes and a
-    non-seekable one its old content followed by them. -/
+/-- The operating system fails during the final write (`q` bytes accepted, `q <` length) or at
+    close: exactly what the model leaves — WriteError, and at a path where a regular file can be,
+    a file holding the first `q` bytes of the new content; anything else at the path is as it
+    was.  (The property text does not forbid this: the complete new content had been produced;
+    the specification only insists that nothing is removed and nothing foreign appears.) -/
+theorem C17_write_fault (c : Bytes) (ov : Bool) (t : Target) (hov : ov = true ∨ t.env.existsAns = false)
+    (hop : t.openFails = false) (hf : t.env.failsAfterOpen c.length = true) :
+    ∃ log, write (.ok c) ov t =
+      (.error .write, { t with node := t.node.store (c.take (t.env.accepts c.length)) }, log) := by
+  rw [write_eq]
+  have hle := env_accepts_le t.env c.length
+  rcases hov with rfl | hex <;> simp [hop, *] <;> simp [Env.failsAfterOpen] at hf <;>
+    (split <;> try split) <;> simp_all <;> omega
+
+/-- `write_stream`, every stream kind (but raw short-writing ones): nothing is touched unless `dump` succeeded (the stream is
+    returned as it was and the error is `dump`'s); on success a seekable stream holds exactly the
+    dumped bytes and a non-seekable one its old content followed by them. -/
 theorem C17_stream (d : Except ErrKind Bytes) (s s' : Stream) (r : Except ErrKind Unit)
-    (h : writeStream d s = (r, s')) :
+    (hraw : s.short = false) (h : writeStream d s = (r, s')) :
     (∀ e, d = .error e → r = .error e ∧ s' = s) ∧
     (∀ c, d = .ok c → r = .ok () → s.seekable = true → s'.content = c) ∧
     (∀ c, d = .ok c → r = .ok () → s.seekable = false → s'.content = s.content ++ c) ∧
     (r = .ok () → ∃ c, d = .ok c) := by
-  cases d with
-  | error e' =>
+  have hs := C17_stream_meets_spec_partial d s (.inl hraw)
+  rw [h] at hs
+  refine ⟨?_, ?_, ?_, ?_⟩
+  · rintro e rfl
     simp only [writeStream, Prod.mk.injEq] at h
-    obtain ⟨rfl, rfl⟩ := h
-    simp
-  | ok c =>
-    cases hs : s.seekable <;> cases hw : s.writeFails <;>
-      simp [writeStream, writeAt, hs, hw] at h <;> obtain ⟨rfl, rfl⟩ := h <;> simp [hs]
+    exact ⟨h.1.symm, h.2.symm⟩
+  · rintro c rfl rfl hseek
+    obtain ⟨c', hc, h1, _⟩ := C17_stream_spec_success _ s s' () hs
+    cases hc; exact h1 hseek
+  · rintro c rfl rfl hseek
+    obtain ⟨c', hc, _, h2⟩ := C17_stream_spec_success _ s s' () hs
+    cases hc; exact h2 hseek
+  · rintro rfl
+    obtain ⟨c', hc, _⟩ := C17_stream_spec_success _ s s' () hs
+    exact ⟨c', hc⟩
 
-/-- non-vacuity: a refused overwrite, a failing dump over an existing file, and a success -/
-example : write (.ok [100, 101]) false none { node := .file [1, 2, 3] } =
-    (.error .write, { node := .file [1, 2, 3] }, [.existsCheck]) := by rfl
-example : write (.error .metainfo) true none { node := .file [1, 2, 3] } =
-    (.error .metainfo, { node := .file [1, 2, 3] }, [.dump]) := by rfl
-example : write (.ok [100, 101]) true none { node := .file [1, 2, 3] } =
-    (.ok (), { node := .file [100, 101] }, [.dump, .open_, .writeFile]) := by rfl
+/-- Append-mode files (`'ab'`, `'a+b'`): `seek(0)` does not redirect writes, but because the
+    stream is emptied *before* the write, a successful export still leaves exactly the dumped
+    bytes, whatever the prior content and position. -/
+theorem C17_stream_append (c old : Bytes) (p : Nat) :
+    writeStream (.ok c) { content := old, pos := p, append := true } =
+      (.ok (), { content := c, pos := c.length, append := true, calls := 4 }) := by
+  simp [writeStream_ok_eq, Stream.accepts]
+
+/-- A failed `write_stream` after the content was produced, exactly: the stream's content is
+    untouched (the failure came from `seekable`/`seek`/`truncate` or a non-seekable stream's
+    `write` call itself), or it is an initial segment of the new content (seekable: emptied, then
+    the write failed; empty segment if the call itself failed), or the old content followed by
+    such a segment (non-seekable).  The error is WriteError, except TypeError for a text-mode
+    stream whose `write` was reached. -/
+theorem C17_stream_failure_shape (c : Bytes) (s s' : Stream) (e : ErrKind)
+    (h : writeStream (.ok c) s = (.error e, s')) :
+    (e = .write ∨ (e = .internal "TypeError" ∧ s.text = true)) ∧
+    (s'.content = s.content ∨
+     (s.seekable = true ∧ s.readOnly = false ∧ ∃ k, k < c.length ∧ s'.content = c.take k) ∨
+     (s.seekable = true ∧ s.readOnly = false ∧ s'.content = []) ∨
+     (s.seekable = false ∧ ∃ k, k < c.length ∧ s'.content = s.content ++ c.take k)) := by
+  have hle := accepts_le s c.length
+  rw [writeStream_ok_eq] at h
+  simp only [] at h
+  repeat' split at h
+  all_goals simp only [Prod.mk.injEq, reduceCtorEq, false_and, Except.error.injEq] at h
+  all_goals obtain ⟨rfl, rfl⟩ := h
+  all_goals simp only [true_or, true_and, reduceCtorEq, false_and, or_false, false_or, and_true, *]
+  all_goals first
+    | exact .inl rfl
+    | exact .inr (.inr trivial)
+    | exact .inr (.inl ⟨_, (‹_ ∧ _›).1, rfl⟩)
+    | exact .inr ⟨_, (‹_ ∧ _›).1, rfl⟩
+    | skip
+
+/-- A text-mode stream (`open(p, 'r+')`, `io.StringIO`): the export raises TypeError *after*
+    emptying the stream.  This is what the unchanged code does; the property allows it (the
+    complete new content had been produced) and the check does not list it as a defect. -/
+theorem C17_stream_text (c old : Bytes) (p : Nat) :
+    writeStream (.ok c) { content := old, pos := p, text := true } =
+      (.error (.internal "TypeError"), { content := [], pos := 0, text := true, calls := 4 }) := by
+  simp [writeStream_ok_eq]
+
+/-- non-vacuity: a refused overwrite, a failing dump over an existing file, a success, an
+    unopenable existing file with the overwrite flag, a write fault after 1 byte, streams -/
+example : write (.ok [100, 101]) false { node := .file [1, 2, 3], env := .natural (.file [1, 2, 3]) } =
+    (.error .write, { node := .file [1, 2, 3], env := .natural (.file [1, 2, 3]) }, [.existsCheck]) := by rfl
+example : write (.error .metainfo) true { node := .file [1, 2, 3], env := .natural (.file [1, 2, 3]) } =
+    (.error .metainfo, { node := .file [1, 2, 3], env := .natural (.file [1, 2, 3]) }, [.dump]) := by rfl
+example : write (.ok [100, 101]) true { node := .file [1, 2, 3], env := .natural (.file [1, 2, 3]) } =
+    (.ok (), { node := .file [100, 101], env := .natural (.file [1, 2, 3]) }, [.dump, .open_, .writeFile]) := by
+  rfl
+example : write (.ok [100, 101]) true { node := .file [1, 2, 3], env := { existsAns := true, openErr := true } } =
+    (.error .write, { node := .file [1, 2, 3], env := { existsAns := true, openErr := true } }, [.dump, .open_]) := by
+  rfl
+example : write (.ok [100, 101]) true { node := .file [1, 2, 3], env := { existsAns := true, quota := some 1 } } =
+    (.error .write, { node := .file [100], env := { existsAns := true, quota := some 1 } },
+      [.dump, .open_, .writeFile]) := by rfl
 example : writeStream (.ok [100, 101]) { seekable := true, content := [1, 2, 3], pos := 1 } =
-    (.ok (), { seekable := true, content := [100, 101], pos := 2 }) := by rfl
+    (.ok (), { seekable := true, content := [100, 101], pos := 2, calls := 4 }) := by rfl
+example : writeStream (.ok [100, 101]) { seekable := false, content := [1, 2, 3], pos := 0, quota := some 1 } =
+    (.error .write, { seekable := false, content := [1, 2, 3, 100], pos := 0, calls := 2, quota := some 0 }) := by
+  rfl
+example : (writeStream (.ok [100, 101]) { content := [1, 2, 3], pos := 2, faultAt := some 2 }) =
+    (.error .write, { content := [1, 2, 3], pos := 0, faultAt := some 2, calls := 3 }) := by rfl
 
 end Torf.C17
